@@ -96,8 +96,10 @@ class Ctx:
         """Static partition of an enumerated space over shards."""
         return index % self.nshards == self.shard
 
-    def budget_ok(self) -> bool:
-        if time.monotonic() - self.t0 > self.soft_s:
+    def budget_ok(self, frac: float = 1.0) -> bool:
+        """Soft deadline.  ``frac`` < 1 lets a multi-part workload reserve budget for its
+        later parts (part k stops generating at frac_k of the soft budget)."""
+        if time.monotonic() - self.t0 > self.soft_s * frac:
             self.stopped_early = True
             return False
         return True
@@ -198,6 +200,7 @@ def shard_main(argv):
     }
     status = "ok"
     err = None
+    ctx.t0 = time.monotonic()  # the soft budget starts after imports
     try:
         mod.run(ctx)
     except BaseException:  # harness failure: reported as inconclusive by the parent
